@@ -376,7 +376,14 @@ def main(ctx):
                          "D": 10 ** 12, "T": 0.1, "real": True, "src": use + "\nlog('END');"})
     ep = engine_pool()
     try:
-        res = ep.map({"mod": "checks.C01", "fn": "w_case"}, cases, batch=40, timeout=120, single_timeout=30)
+        fin_idx = [i for i, c in enumerate(cases) if c.get("finite")]
+        oth_idx = [i for i, c in enumerate(cases) if not c.get("finite")]
+        res = [None] * len(cases)
+        for i, r in zip(oth_idx, ep.map({"mod": "checks.C01", "fn": "w_case"}, [cases[i] for i in oth_idx], batch=40, timeout=120, single_timeout=30)):
+            res[i] = r
+        # (finite scripts take milliseconds: a short watchdog keeps a hanging tree from costing minutes per case)
+        for i, r in zip(fin_idx, ep.map({"mod": "checks.C01", "fn": "w_case"}, [cases[i] for i in fin_idx], batch=10, timeout=25, single_timeout=8)):
+            res[i] = r
         rres = ep.map({"mod": "checks.C01", "fn": "w_case"}, real, batch=4, timeout=60, single_timeout=20)
     finally:
         ep.close()
